@@ -65,7 +65,10 @@ func TestVerif_C03(t *testing.T) {
 		c.Base.AllowedAuthBackendsForCerts = []string{"U2F"}
 		c.Base.AutomationUsers = []string{"svc-automation"}
 		c.Base.AdminUsers = []string{"admin"}
+		c.AwsCerts.AllowedAccounts = []string{"123456789012"}
 	})
+	env.enableFakeAws()
+	env.handler = env.buildHandler()
 	keys := verifNewKeys()
 	ages := []time.Duration{0, 8 * time.Hour, 15*time.Hour + 59*time.Minute, 23*time.Hour + 59*time.Minute, 25 * time.Hour, 40 * 24 * time.Hour}
 	types := []string{"ssh", "x509", "x509-kubernetes"}
@@ -212,6 +215,33 @@ func TestVerif_C03(t *testing.T) {
 			}
 		}
 	}
+	// cloud-role certificates: 24 hours
+	var awsObs []c03Obs
+	for i := 0; i < 3; i++ {
+		req := verifAwsRequest(keys.pemPub)
+		if i == 1 {
+			req.URL.RawQuery = "duration=1000h"
+		}
+		if i == 2 {
+			req.Header.Set("Duration", "1000h")
+		}
+		t0 := time.Now().Unix()
+		rr, _ := env.serve(req)
+		c := verifParseCertBody(rr.Body.Bytes())
+		o := c03Obs{certType: "aws", t0: t0, t1: time.Now().Unix(), status: rr.Code, issued: rr.Code == 200 && c != nil}
+		if o.issued {
+			o.va, o.vb, o.vbU = c.notBefore, c.notAfter, c.notAfterU
+			if o.vb-o.va > 86400 || o.va > o.t1+1 || o.vbU > uint64(1)<<62 {
+				res.hit(verifHit{Key: "C03:aws-toolong", Oracle: "cloud-role certificate valid longer than 24 hours", What: fmt.Sprintf("cloud-role certificate valid for %d s", o.vb-o.va), Case: "aws"})
+			}
+		} else {
+			t.Errorf("aws request failed: %d %s", rr.Code, rr.Body.String())
+			res.hit(verifHit{Key: "C03:harness:aws", Oracle: "harness", What: "cloud-role request was refused", Case: "aws"})
+		}
+		awsObs = append(awsObs, o)
+		res.eval(fmt.Sprintf("aws|%d|%d", i, o.vb-o.va), o.issued)
+		res.bump("type:aws")
+	}
 	// Coq cases
 	var sb strings.Builder
 	sb.WriteString(coqCaseHeader)
@@ -238,6 +268,14 @@ func TestVerif_C03(t *testing.T) {
 		sb.WriteString(fmt.Sprintf("(%s, %s)", coqBool(o.issued), coqZ(o.vb-o.va)))
 	}
 	sb.WriteString("].\nDefinition c03_role_mismatches := Eval vm_compute in mismatches (fun c : bool * Z => fst c && negb ((0 <? snd c) && (snd c * NS <=? maxRoleRequestingCertDuration_ns))) role_cases.\nPrint c03_role_mismatches.\n")
+	sb.WriteString("Definition aws_cases : list (bool * Z) := [")
+	for i, o := range awsObs {
+		if i > 0 {
+			sb.WriteString("; ")
+		}
+		sb.WriteString(fmt.Sprintf("(%s, %s)", coqBool(o.issued), coqZ(o.vb-o.va)))
+	}
+	sb.WriteString("].\nDefinition c03_aws_mismatches := Eval vm_compute in mismatches (fun c : bool * Z => negb (fst c && (0 <? snd c) && (snd c <=? 24 * 3600))) aws_cases.\nPrint c03_aws_mismatches.\n")
 	if err := ioutil.WriteFile(filepath.Join(verifOut(), "CasesC03.v"), []byte(sb.String()), 0644); err != nil {
 		t.Fatal(err)
 	}
